@@ -18,6 +18,7 @@ type EVal struct {
 	Ty types.Type // Go type if known
 	// ghost arrays: total SMT arrays declared with a map-ish type
 	GKey, GVal types.Type
+	GT    *ghostT // nested ghost arrays (value sort is itself an array)
 	IsNil bool
 	TypeName types.Type // expression denotes a type (for Type.Field)
 	Pkg   *types.Package // expression denotes an imported package
@@ -107,12 +108,73 @@ func (e *Env) ghostPkg(g *GhostDecl) *types.Package {
 	return e.pkg
 }
 
-func (e *Env) ghostVal(g *GhostDecl) EVal {
-	t := e.s.P.resolveTypeIn(e.ghostPkg(g), e.spec, g.Type)
-	if mt, ok := t.(*types.Map); ok {
-		so := ArrSort(sortOf(mt.Key()), sortOf(mt.Elem()))
-		return EVal{T: e.heap(ghostKey(g.Name), so), GKey: mt.Key(), GVal: mt.Elem()}
+// ghostT describes the type of a ghost value: map[K]V (total SMT array), set[K] (array to Bool),
+// possibly nested; a leaf is a Go type.
+type ghostT struct {
+	Key  types.Type
+	Val  types.Type // leaf value type (nil if Next != nil)
+	Next *ghostT
+}
+
+func (g *ghostT) valSort() Sort {
+	if g.Next != nil {
+		return g.Next.sort()
 	}
+	return sortOf(g.Val)
+}
+func (g *ghostT) sort() Sort { return ArrSort(sortOf(g.Key), g.valSort()) }
+
+// parseGhostType: nil result means a plain Go type (scalar ghost).
+func (P *Prog) parseGhostType(pkg *types.Package, s string) *ghostT {
+	s = strings.TrimSpace(s)
+	var keyEnd int
+	switch {
+	case strings.HasPrefix(s, "set["):
+		depth := 0
+		for i := 3; i < len(s); i++ {
+			if s[i] == '[' {
+				depth++
+			}
+			if s[i] == ']' {
+				depth--
+				if depth == 0 {
+					return &ghostT{Key: P.resolveType(pkg, s[4:i]), Val: types.Typ[types.Bool]}
+				}
+			}
+		}
+	case strings.HasPrefix(s, "map["):
+		depth := 0
+		for i := 3; i < len(s); i++ {
+			if s[i] == '[' {
+				depth++
+			}
+			if s[i] == ']' {
+				depth--
+				if depth == 0 {
+					keyEnd = i
+					break
+				}
+			}
+		}
+		g := &ghostT{Key: P.resolveType(pkg, s[4:keyEnd])}
+		rest := strings.TrimSpace(s[keyEnd+1:])
+		if strings.HasPrefix(rest, "map[") || strings.HasPrefix(rest, "set[") {
+			g.Next = P.parseGhostType(pkg, rest)
+		} else {
+			g.Val = P.resolveType(pkg, rest)
+		}
+		return g
+	}
+	return nil
+}
+
+func (e *Env) ghostVal(g *GhostDecl) EVal {
+	gp := e.ghostPkg(g)
+	if gt := e.s.P.parseGhostType(gp, g.Type); gt != nil {
+		v := EVal{T: e.heap(ghostKey(g.Name), gt.sort()), GKey: gt.Key, GVal: gt.Val, GT: gt}
+		return v
+	}
+	t := e.s.P.resolveTypeIn(gp, e.spec, g.Type)
 	return EVal{T: e.heap(ghostKey(g.Name), sortOf(t)), Ty: t}
 }
 
@@ -240,6 +302,11 @@ func (e *Env) ident(name string) EVal {
 	for path, sp := range e.s.P.pkgs {
 		if shortPkg(path) == name {
 			return EVal{Pkg: sp.Pkg}
+		}
+	}
+	for _, pp := range e.s.P.prog.AllPackages() {
+		if pp.Pkg.Name() == name {
+			return EVal{Pkg: pp.Pkg}
 		}
 	}
 	fatalf("%s: unknown identifier %q in specification", e.s.name, name)
@@ -423,6 +490,10 @@ func (e *Env) index(n *EIndex) EVal {
 	x := e.eval(n.X)
 	i := e.eval(n.I)
 	if x.GKey != nil {
+		if x.GT != nil && x.GT.Next != nil {
+			n := x.GT.Next
+			return EVal{T: Select(x.T, i.T), GKey: n.Key, GVal: n.Val, GT: n}
+		}
 		return EVal{T: Select(x.T, i.T), Ty: x.GVal}
 	}
 	if x.Ty == nil {
@@ -561,11 +632,17 @@ func (e *Env) call(n *ECall) EVal {
 		return c.eval(p.Body)
 	}
 	// uninterpreted spec functions
-	if f := e.findFun(n.Fun); f != nil {
+	if f, fsp := e.findFunSpec(n.Fun); f != nil {
 		var sorts []Sort
 		var args []Term
+		fpkg := e.pkg
+		if fsp != nil {
+			if pt := e.s.pkgTypes(fsp.Path); pt != nil {
+				fpkg = pt
+			}
+		}
 		for i, prm := range f.Params {
-			t := e.s.P.resolveType(e.pkg, prm.Type)
+			t := e.s.P.resolveType(fpkg, prm.Type)
 			sorts = append(sorts, sortOf(t))
 			a := e.eval(n.Args[i])
 			if a.IsNil {
@@ -573,7 +650,7 @@ func (e *Env) call(n *ECall) EVal {
 			}
 			args = append(args, a.T)
 		}
-		rt := e.s.P.resolveType(e.pkg, f.Result)
+		rt := e.s.P.resolveType(fpkg, f.Result)
 		e.s.D.Fun("sf_"+f.Name, sorts, sortOf(rt))
 		e.s.useAxioms(e)
 		if len(args) == 0 {
@@ -618,6 +695,18 @@ func (e *Env) findPred(name string) *Pred {
 	}
 	return nil
 }
+func (e *Env) findFunSpec(name string) (*FunDecl, *PkgSpec) {
+	if f := e.spec.Funs[name]; f != nil {
+		return f, e.spec
+	}
+	for _, sp := range e.s.P.specs {
+		if f := sp.Funs[name]; f != nil {
+			return f, sp
+		}
+	}
+	return nil, nil
+}
+
 func (e *Env) findFun(name string) *FunDecl {
 	if f := e.spec.Funs[name]; f != nil {
 		return f
@@ -709,6 +798,13 @@ func (s *Session) callerEnv(st *State) *Env {
 				for _, p := range s.fn.Params {
 					if p.Name() == base[:len(base)-1] {
 						return EVal{T: t, Ty: p.Type()}, true
+					}
+				}
+			}
+			if t, ok := fr.params["$fv:"+base[:len(base)-1]]; ok {
+				for _, fv := range s.fn.FreeVars {
+					if fv.Name() == base[:len(base)-1] {
+						return EVal{T: t, Ty: fv.Type().Underlying().(*types.Pointer).Elem()}, true
 					}
 				}
 			}
